@@ -193,12 +193,12 @@ def gen_plan(rng, tier, i):
             r["name"] = r["name"] or "SAT " + str(r["norad"])
     ops = []
     # which entries get the exhaustive per-entry enumeration
-    for k in rng.sample(range(n), min(2, n)):
+    for k in rng.sample(range(n), n if tier == "thorough" else min(2, n)):  # thorough: the fault space of every entry
         ops.append({"op": "enumerate_entry", "entry": k})
     # catalogue faults (each applied alone to the pristine stored text)
     for _ in range(rng.randint(2, 6)):
         ops.append({"op": "catalogue_fault", "kind": rng.choice(["lose", "dup", "swap", "corrupt", "truncate", "lose", "corrupt", "zero_to_letter", "zero_to_letter"]), "line": rng.randrange(64), "col": rng.randrange(69), "digit": rng.randrange(1, 10), "policy": rng.choice(["ignore", "warn", "raise"])})
-    return {"knobs": {"records": recs, "comments": rng.random() < 0.3, "three_line": three, "all_line_faults": rng.random() < 0.3}, "ops": ops}
+    return {"knobs": {"records": recs, "comments": rng.random() < 0.3, "three_line": three, "all_line_faults": rng.random() < (1.0 if tier == "thorough" else 0.3)}, "ops": ops}
 
 
 # ----------------------------------------------------------------------- run
